@@ -17,8 +17,8 @@ from sx import Sym, Str
 
 PROP = "C13"
 PROP_FILE = "C13_PE"
-THEOREMS = ["c13_decision_partial", "c13_determining_must_partial", "c13_determining_may_partial",
-            "c13_definitely_satisfied_partial", "c13_definitely_errored_partial", "c13_trivially_false_partial"]
+THEOREMS = ["c13_peval_sound", "c13_policy_status_sound", "c13_decision", "c13_determining", "c13_definitely",
+            "c13_reauthorize_partial", "c13_reauthorize_no_residual"]
 
 MANIFEST = {
     "text": "Executable Gallina partial evaluator (PE.v) transcribed from evaluator.rs residual arms, PartialResponse views and reauthorize; soundness w.r.t. every well-typed substitution proved in Coq; tied to /repo by differential execution (buckets/decision/must/may exact, residuals compared semantically under >= 10 substitutions per case) plus an implementation-level oracle (reauthorize == from scratch, definite decision stable, must ⊆ determining ⊆ may).",
@@ -41,7 +41,8 @@ def rust_cmd(case):
     subs = []
     for s in case["sigmas"]:
         subs.append({"map": pe.sigma_json(s), "request": cedar.request_json(pc.concrete_request(s)),
-                     "entities": cedar.entities_json(pc.concrete_entities(s))})
+                     "entities": cedar.entities_json(pc.concrete_entities(s)),
+                     "entity_unknowns": [cedar.uid_json(e["uid"]) for e in getattr(pc, "missing", [])]})
     return {"cmd": "partial_authorize",
             "policies": [{"id": p["id"], "text": cedar.policy_text(p)} for p in case["policies"]],
             "request": pc.preq_json(), "entities": pc.pents_json(), "partial_store": pc.partial_store, "subs": subs}
@@ -66,15 +67,15 @@ def in_model_fragment(case):
         if pe.has_ext(v):
             return False
     for s in case["sigmas"]:
-        for v in s.values():
-            if pe.has_ext(v):
+        for n, v in s.items():
+            if not n.startswith("\0") and pe.has_ext(v):
                 return False
     return True
 
 
 def describe(case):
     return {"rust_cmd": rust_cmd(case), "stream": case["stream"],
-            "sigmas": [{n: repr(v) for n, v in s.items()} for s in case["sigmas"][:3]]}
+            "sigmas": [{n.replace("\0", "~"): repr(v) for n, v in s.items()} for s in case["sigmas"][:3]]}
 
 
 # ------------------------------------------------------------------ the oracle on the implementation
@@ -106,6 +107,11 @@ def oracle(case, rr):
             # `false` by reauthorize (its error is not repeated in the diagnostics): false ~ err there
             if a != b and not (pst.get(i, "").startswith("err:") and a == "false" and b == "err"):
                 bad.append(("policy outcome under reauthorize differs from scratch", "sigma#%d policy %s: %s vs %s" % (k, i, a, b)))
+        # Expr::substitute(sigma) on each residual, evaluated concretely, agrees with the policy from scratch
+        for i, st in sub.get("subst_eval", {}).items():
+            if status_class(st) != status_class(sc["status"].get(i, "?")):
+                bad.append(("residual with the substitution applied (Expr::substitute) evaluates differently from the policy from scratch",
+                            "sigma#%d policy %s: %s vs %s" % (k, i, st, sc["status"].get(i))))
         if rr["decision"] is not None and rr["decision"] != sc["decision"]:
             bad.append(("definite partial decision contradicted by a substitution", "sigma#%d partial=%s scratch=%s" % (k, rr["decision"], sc["decision"])))
         if not set(rr["must"]) <= set(sc["reasons"]):
@@ -262,7 +268,8 @@ def random_cases(rng, n, noext, partial_store=False):
             p = {"id": "p%d" % i, "effect": rng.choice(["permit", "permit", "forbid"]), "conds": conds, "annotations": []}
             p.update(scope_choices(rng, w))
             pols.append(p)
-        cases.append({"pc": pc, "policies": pols, "sigmas": pc.sigmas(NSIG), "stream": "random" if noext else "random-ext"})
+        cases.append({"pc": pc, "policies": pols, "sigmas": pc.sigmas(NSIG),
+                      "stream": "partial-store" if partial_store else ("random" if noext else "random-ext")})
     return cases
 
 
@@ -317,6 +324,7 @@ def run(rep, tier, seed):
     cases = table_cases(rng, tier)
     cases += random_cases(rng, 500 if quick else 12000, noext=True)
     cases += random_cases(rng, 150 if quick else 3000, noext=False)
+    cases += random_cases(rng, 250 if quick else 5000, noext=True, partial_store=True)
     nm = near_miss_cases(rng, 60 if quick else 600)
 
     rres = fw.run_rust(harness, [rust_cmd(c) for c in cases])
